@@ -190,7 +190,7 @@ def handle (args : List String) : String :=
           (if objs == "-" then some [] else mapM? parseObjB (objs.splitOn ",")),
           (if secs == "-" then some [] else mapM? parseSec (secs.splitOn "|")),
           (if info == "n" then some none else (DrvObj.valOf info).map some),
-          (if ids == "-" then some [] else mapM? DrvObj.valOf (ids.splitOn "~")),
+          (if ids == "-" then some [] else mapM? (fun s => match DrvObj.valOf s with | some (.str b) => some b | _ => none) (ids.splitOn "~")),
           (if ops == "-" then some [] else mapM? parseBOp (ops.splitOn ";")) with
     | some st, some ln, some sx, some os, some ss, some inf, some ids, some ops =>
       let raw : St BV := ⟨[], [], [], false, os, ss, ln, st, sx⟩
